@@ -1,7 +1,7 @@
 /-
   L4: the position the parser gives a statement is the position of its first token (`!` included);
   the left operand of a negated pipeline (`! a | b`, whose `!` belongs to the whole pipeline) keeps
-  the position of the `!`.  `Stmt.pk` / `parse_pk`.  Subshells and blocks are not entered.
+  the position of the `!`.  `Stmt.pk` / `parse_pk`, inside subshells and blocks as well.
 -/
 import ShVerif.Proofs.L4Flat
 namespace ShVerif.L4
@@ -19,9 +19,18 @@ def Stmt.pk : Stmt → Option Pos → Prop
 def Cmd.pk : Cmd → Option Pos → Prop
   | .binary _ op x y, ctx => (if op = .pipe then x.pk ctx else x.pk none) ∧ y.pk none
   | .call _, _ => True
-  | .subshell _ _ _, _ => True
-  | .block _ _ _, _ => True
+  | .subshell _ _ ss, _ => ss.pkAll
+  | .block _ _ ss, _ => ss.pkAll
+def Stmts.pkAll : Stmts → Prop
+  | .nil => True
+  | .cons s r => s.pk none ∧ r.pkAll
 end
+
+theorem ofList_pkAll : ∀ l : List Stmt, (∀ s ∈ l, s.pk none) → (Stmts.ofList l).pkAll
+  | [], _ => by simp [Stmts.ofList, Stmts.pkAll]
+  | s :: r, h => by
+    simp only [Stmts.ofList, Stmts.pkAll]
+    exact ⟨h s (by simp), ofList_pkAll r (fun x hx => h x (by simp [hx]))⟩
 
 def HeadC (c : Cmd) (q : Pos) : Prop := ∃ tp rest, c.ftoks = tp :: rest ∧ tp.2 = q
 
@@ -49,42 +58,40 @@ theorem callArgs_pre : ∀ (fuel : Nat) (inSub : Bool) (ps : PS) (acc args : Lis
       | exact hstop h
       | exact hrec _ _ h
 
-theorem firstCmdF_cmd (n : Nat) (inSub : Bool) (pos : Pos) (neg : Bool) (ps : PS) (s : Stmt) (ps' : PS)
-    (h : firstCmdF n inSub pos neg ps = .ok (some s, ps')) :
+theorem firstCmdF_cmd (m : Nat) (inSub : Bool) (pos : Pos) (neg : Bool) (ps : PS) (s : Stmt) (ps' : PS)
+    (h : firstCmdF (m + 1) inSub pos neg ps = .ok (some s, ps')) :
     (∃ w args, s.cmd = .call (w :: args)) ∨
-    (∃ a b ss, s.cmd = .subshell a b ss) ∨ (∃ a b ss, s.cmd = .block a b ss) := by
-  cases n with
-  | zero => simp [firstCmdF] at h
-  | succ m =>
-    unfold firstCmdF at h
-    have fin : ∀ (c : Cmd) (q : PS), (.ok (some (mkStmt pos neg c), q) : Except ParseErr (Option Stmt × PS)) = .ok (some s, ps') →
-        s.cmd = c := by
-      intro c q e
-      simp only [Except.ok.injEq, Prod.mk.injEq, Option.some.injEq] at e
-      rw [← e.1]; rfl
-    have call : ∀ (w : Word) (args : List Word) (q q2 : PS), callArgs (m + 1) inSub q2 [w] = .ok (args, q) →
-        (.ok (some (mkStmt pos neg (.call args)), q) : Except ParseErr (Option Stmt × PS)) = .ok (some s, ps') →
-        ∃ w args, s.cmd = .call (w :: args) := by
-      intro w args q q2 hca e
-      obtain ⟨more, hm⟩ := callArgs_pre _ _ _ _ _ _ hca
-      exact ⟨w, more, by rw [fin _ _ e, hm]; rfl⟩
-    cases hsemi : (ps.next.tok == Tok.semi) with
-    | true =>
-      simp only [hsemi, ↓reduceIte] at h
-      repeat' split at h
-      all_goals first
-        | (cases h; done)
-        | (rename_i args q hca
-           exact Or.inl (call _ _ _ _ hca h))
-    | false =>
-      simp only [hsemi, Bool.false_eq_true, ↓reduceIte] at h
-      repeat' split at h
-      all_goals first
-        | (cases h; done)
-        | exact Or.inr (Or.inl ⟨_, _, _, fin _ _ h⟩)
-        | exact Or.inr (Or.inr ⟨_, _, _, fin _ _ h⟩)
-        | (rename_i args q hca
-           exact Or.inl (call _ _ _ _ hca h))
+    (∃ a b ss q, s.cmd = .subshell a b (Stmts.ofList ss) ∧ stmtsF m true false true ps.next [] = .ok (ss, q)) ∨
+    (∃ a b ss q, s.cmd = .block a b (Stmts.ofList ss) ∧ stmtsF m inSub true true ps.next [] = .ok (ss, q)) := by
+  unfold firstCmdF at h
+  have fin : ∀ (c : Cmd) (q : PS), (.ok (some (mkStmt pos neg c), q) : Except ParseErr (Option Stmt × PS)) = .ok (some s, ps') →
+      s.cmd = c := by
+    intro c q e
+    simp only [Except.ok.injEq, Prod.mk.injEq, Option.some.injEq] at e
+    rw [← e.1]; rfl
+  have call : ∀ (w : Word) (args : List Word) (q q2 : PS), callArgs (m + 1) inSub q2 [w] = .ok (args, q) →
+      (.ok (some (mkStmt pos neg (.call args)), q) : Except ParseErr (Option Stmt × PS)) = .ok (some s, ps') →
+      ∃ w args, s.cmd = .call (w :: args) := by
+    intro w args q q2 hca e
+    obtain ⟨more, hm⟩ := callArgs_pre _ _ _ _ _ _ hca
+    exact ⟨w, more, by rw [fin _ _ e, hm]; rfl⟩
+  cases hsemi : (ps.next.tok == Tok.semi) with
+  | true =>
+    simp only [hsemi, ↓reduceIte] at h
+    repeat' split at h
+    all_goals first
+      | (cases h; done)
+      | (rename_i args q hca
+         exact Or.inl (call _ _ _ _ hca h))
+  | false =>
+    simp only [hsemi, Bool.false_eq_true, ↓reduceIte] at h
+    repeat' split at h
+    all_goals first
+      | (cases h; done)
+      | exact Or.inr (Or.inl ⟨_, _, _, _, fin _ _ h, by assumption⟩)
+      | exact Or.inr (Or.inr ⟨_, _, _, _, fin _ _ h, by assumption⟩)
+      | (rename_i args q hca
+         exact Or.inl (call _ _ _ _ hca h))
 
 theorem firstCmdF_tok (n : Nat) (inSub : Bool) (pos : Pos) (neg : Bool) (ps : PS) (s : Stmt) (ps' : PS)
     (h : firstCmdF n inSub pos neg ps = .ok (some s, ps')) :
@@ -102,11 +109,18 @@ theorem firstCmdF_tok (n : Nat) (inSub : Bool) (pos : Pos) (neg : Bool) (ps : PS
       subst e
       simp [firstCmdF, PS.tok_cons] at h
 
-theorem k_first (n : Nat) (inSub : Bool) (pos : Pos) (neg : Bool) (ps : PS) (s : Stmt) (ps' : PS)
-    (h : firstCmdF n inSub pos neg ps = .ok (some s, ps')) (hok : AllOK2 ps) :
-    HeadC s.cmd ps.pos ∧ ∀ ctx, s.cmd.pk ctx := by
-  obtain ⟨_, f2, _⟩ := (t_all n).1 inSub pos neg ps s ps' h hok
-  obtain ⟨t, p, rest, e1, hnl⟩ := firstCmdF_tok n inSub pos neg ps s ps' h
+def KStmts (n : Nat) : Prop :=
+  ∀ (inSub stopBrace gotEnd : Bool) (ps : PS) (acc ss : List Stmt) (ps' : PS),
+    stmtsF n inSub stopBrace gotEnd ps acc = .ok (ss, ps') → AllOK2 ps → (∀ s ∈ acc, s.pk none) →
+    ∀ s ∈ ss, s.pk none
+def KFirst (n : Nat) : Prop :=
+  ∀ (inSub : Bool) (pos : Pos) (neg : Bool) (ps : PS) (s : Stmt) (ps' : PS),
+    firstCmdF n inSub pos neg ps = .ok (some s, ps') → AllOK2 ps → HeadC s.cmd ps.pos ∧ ∀ ctx, s.cmd.pk ctx
+
+theorem k_first (m : Nat) (hS : KStmts m) : KFirst (m + 1) := by
+  intro inSub pos neg ps s ps' h hok
+  obtain ⟨_, f2, _⟩ := (t_all (m + 1)).1 inSub pos neg ps s ps' h hok
+  obtain ⟨t, p, rest, e1, hnl⟩ := firstCmdF_tok (m + 1) inSub pos neg ps s ps' h
   have hpos : ps.pos = p := by
     obtain ⟨toks⟩ := ps
     simp only at e1
@@ -118,10 +132,16 @@ theorem k_first (n : Nat) (inSub : Bool) (pos : Pos) (neg : Bool) (ps : PS) (s :
     rw [e] at f2
     simp only [List.cons_append, List.cons.injEq] at f2
     exact ⟨tp, r, e, by rw [← f2.1, hpos]⟩
-  rcases firstCmdF_cmd n inSub pos neg ps s ps' h with ⟨w, args, e⟩ | ⟨a, b, ss, e⟩ | ⟨a, b, ss, e⟩
+  rcases firstCmdF_cmd m inSub pos neg ps s ps' h with ⟨w, args, e⟩ | ⟨a, b, ss, q, e, hst⟩ | ⟨a, b, ss, q, e, hst⟩
   · exact ⟨head _ _ (by rw [e]; simp [Cmd.ftoks]; exact ⟨rfl, rfl⟩), fun ctx => by rw [e]; simp [Cmd.pk]⟩
-  · exact ⟨head _ _ (by rw [e]; simp [Cmd.ftoks]; exact ⟨rfl, rfl⟩), fun ctx => by rw [e]; simp [Cmd.pk]⟩
-  · exact ⟨head _ _ (by rw [e]; simp [Cmd.ftoks]; exact ⟨rfl, rfl⟩), fun ctx => by rw [e]; simp [Cmd.pk]⟩
+  · refine ⟨head _ _ (by rw [e]; simp [Cmd.ftoks]; exact ⟨rfl, rfl⟩), fun ctx => ?_⟩
+    rw [e]
+    simp only [Cmd.pk]
+    exact ofList_pkAll ss (hS _ _ _ _ _ _ _ hst hok.next (by simp))
+  · refine ⟨head _ _ (by rw [e]; simp [Cmd.ftoks]; exact ⟨rfl, rfl⟩), fun ctx => ?_⟩
+    rw [e]
+    simp only [Cmd.pk]
+    exact ofList_pkAll ss (hS _ _ _ _ _ _ _ hst hok.next (by simp))
 
 def ctxOf (neg : Bool) (pos : Pos) : Option Pos := if neg then some pos else none
 
@@ -140,12 +160,7 @@ def KGet (n : Nat) : Prop :=
 def KAndOr (n : Nat) : Prop :=
   ∀ (inSub binCmd : Bool) (s : Stmt) (ps : PS) (s' : Stmt) (ps' : PS),
     andOrF n inSub binCmd s ps = .ok (s', ps') → AllOK2 ps → s.semi.valid = false → s.pk none → s'.pk none
-def KStmts (n : Nat) : Prop :=
-  ∀ (inSub stopBrace gotEnd : Bool) (ps : PS) (acc ss : List Stmt) (ps' : PS),
-    stmtsF n inSub stopBrace gotEnd ps acc = .ok (ss, ps') → AllOK2 ps → (∀ s ∈ acc, s.pk none) →
-    ∀ s ∈ ss, s.pk none
-
-theorem k_got (n : Nat) (hP : KPipe n) : KGot (n + 1) := by
+theorem k_got (n : Nat) (hF : KFirst n) (hP : KPipe n) : KGot (n + 1) := by
   intro inSub pos neg binCmd ps s ps' h hok hpos
   rw [gotStmtPipeF_eq] at h
   split at h
@@ -159,7 +174,7 @@ theorem k_got (n : Nat) (hP : KPipe n) : KGot (n + 1) := by
       simp only [Except.ok.injEq, Prod.mk.injEq, Option.some.injEq] at h
       obtain ⟨rfl, rfl⟩ := h
       obtain ⟨f1, _, f3⟩ := (t_all n).1 _ _ _ _ _ _ hf hok
-      obtain ⟨k1, k2⟩ := k_first n _ _ _ _ _ _ hf hok
+      obtain ⟨k1, k2⟩ := hF _ _ _ _ _ _ hf hok
       have hs1 : s1 = mkStmt s1.pos s1.negated s1.cmd := by rw [f3]; rfl
       have hp1 : s1.pos = pos := by rw [f3]; rfl
       have hn1 : s1.negated = neg := by rw [f3]; rfl
@@ -408,25 +423,18 @@ theorem k_stmts (n : Nat) (hGet : KGet n) (hS : KStmts n) : KStmts (n + 1) := by
                   · exact hs
                   · exact hacc x hx)
 
-theorem k_all : ∀ n : Nat, KGot n ∧ KPipe n ∧ KGet n ∧ KAndOr n ∧ KStmts n
+theorem k_all : ∀ n : Nat, KFirst n ∧ KGot n ∧ KPipe n ∧ KGet n ∧ KAndOr n ∧ KStmts n
   | 0 => by
-    refine ⟨?_, ?_, ?_, ?_, ?_⟩
+    refine ⟨?_, ?_, ?_, ?_, ?_, ?_⟩
+    · intro inSub pos neg ps s ps' h; simp [firstCmdF] at h
     · intro inSub pos neg binCmd ps s ps' h; simp [gotStmtPipeF] at h
     · intro inSub binCmd s ps s' ps' h; simp [pipeF] at h
     · intro inSub readEnd binCmd ps s ps' h; simp [getStmtF] at h
     · intro inSub binCmd s ps s' ps' h; simp [andOrF] at h
     · intro inSub stopBrace gotEnd ps acc ss ps' h; simp [stmtsF] at h
   | n + 1 => by
-    obtain ⟨hG, hP, hGet, hA, hS⟩ := k_all n
-    exact ⟨k_got n hP, k_pipe n hG hP, k_get n hG hA, k_andor n hGet hA, k_stmts n hGet hS⟩
-
-def Stmts.pkAll : Stmts → Prop
-  | .nil => True
-  | .cons s r => s.pk none ∧ r.pkAll
-
-theorem ofList_pkAll : ∀ l : List Stmt, (∀ s ∈ l, s.pk none) → (Stmts.ofList l).pkAll
-  | [], _ => trivial
-  | s :: r, h => ⟨h s (by simp), ofList_pkAll r (fun x hx => h x (by simp [hx]))⟩
+    obtain ⟨hF, hG, hP, hGet, hA, hS⟩ := k_all n
+    exact ⟨k_first n hS, k_got n hF hP, k_pipe n hG hP, k_get n hG hA, k_andor n hGet hA, k_stmts n hGet hS⟩
 
 /-- **Statement positions are first-token positions** in every tree the parser builds. -/
 theorem parse_pk (l : Lang) (src : Bytes) (f : File) (h : parse l src = .ok f) : f.stmts.pkAll := by
@@ -434,7 +442,7 @@ theorem parse_pk (l : Lang) (src : Bytes) (f : File) (h : parse l src = .ok f) :
   split at h
   · cases h
   · rename_i ss ps hst
-    have := (k_all _).2.2.2.2 false false true ⟨lexAll src⟩ [] ss ps hst (lexAll_ok2 src) (by simp)
+    have := (k_all _).2.2.2.2.2 false false true ⟨lexAll src⟩ [] ss ps hst (lexAll_ok2 src) (by simp)
     split at h
     · simp only [Except.ok.injEq] at h
       subst h
